@@ -24,6 +24,10 @@ def r15_1(ck: Check) -> None:
     spl = Spec(sl, ("cls", "f"))
     dumps = [e for e in sd.events if e.kind == "call" and e.parts[0] == ("g", "ext:json.dump")]
     rets = sl.returns()
+    if not dumps and not any(e.kind == "call" and e.parts and e.parts[0][0] == "a" and e.parts[0][2] in ("write", "writelines") for e in sd.events):
+        ck.violated("R15.1", "Wallet.dump writes the wallet", "nothing is written: no json.dump, no write — save_wallet then replaces wallet.json "
+                    "with an empty file, and every key is lost", sd.fi.loc)
+        return
     if len(dumps) != 1 or not dumps[0].term[2] or dumps[0].term[2][0][0] != "dict" or len(rets) != 1 or rets[0].term[0] != "call":
         raise AnalysisError("Wallet.dump / Wallet.load left the recognised shape (json.dump of a dict literal / return cls(...))")
     d = dict((k_[1], v) for k_, v in dumps[0].term[2][0][1] if k_[0] == "c")
@@ -409,7 +413,7 @@ def r15_6(ck: Check) -> None:
                         "block pays is persisted as unused and handed out again by the next run", late[0].loc)
         else:
             ck.ok("R15.6", construct, "%d give-back site(s)" % len(rs), rs[0].loc)
-    ck.expect_count("R15.6", "key give-back sites", n, 1)
+    ck.stats["key give-back sites"] = n     # (none is fine too: a key that is never given back is never handed out twice)
 
 
 def r15_7(ck: Check) -> None:
